@@ -171,7 +171,7 @@ def run(ctx):
                 line=n.lineno,
             )
     ctx.count("ir_literals", n_lit)
-    ctx.floor("IR dict literals in parsers", n_lit, 6)
+    ctx.floor("IR dict literals in parsers", n_lit, 4)
     # --------------------------------------------------------------- none
     vals = {}
     for py in ((3, 8), (3, 9), (3, 12)):
